@@ -75,7 +75,8 @@ def spec_step(order, blocks, pred, past, const):
 
 
 def worker(job):
-    repo, D, order, dyn_c, const, past, n, entry = job
+    repo, D, order, dyn_c, const, past, n, entry = job[:8]
+    emit = job[8] if len(job) > 8 else "input"
     it, w = get_interp(repo)
     ml = it.get_module("ginjax.ml")
     sp = SPATIAL[D]
@@ -84,10 +85,12 @@ def worker(job):
     for t in order:
         c = dyn_c.get(t, 0) * past + const.get(t, 0)
         blocks[t] = block("x", t, (c,), sp, D)
-    out_c = {t: dyn_c[t] for t in order if dyn_c.get(t, 0) > 0}
+    # "for every model": a model may hand back its output types in any order
+    emit_order = list(order) if emit == "input" else list(reversed(order)) if emit == "reversed" else sorted(order)
+    out_c = {t: dyn_c[t] for t in emit_order if dyn_c.get(t, 0) > 0}
     x = make_multi(it, order, blocks, D, True)
     model = ModelSym(it, out_c, D, sp)
-    cfg = dict(entry=entry, D=D, order=[list(t) for t in order], dynamic_channels={tname(t): c for t, c in dyn_c.items()}, constants={tname(t): c for t, c in const.items()}, past_steps=past, steps=n)
+    cfg = dict(entry=entry, D=D, order=[list(t) for t in order], model_emits=emit, dynamic_channels={tname(t): c for t, c in dyn_c.items()}, constants={tname(t): c for t, c in const.items()}, past_steps=past, steps=n)
     problems = []
     cdict = {t: c for t, c in const.items() if c > 0}
     if entry == "map":
@@ -180,6 +183,9 @@ def run(ctx):
                         continue
                     for entry in ("step", "map"):
                         jobs.append((ctx.repo, D, order, dyn, const, past, n, entry))
+                        if len([t for t in order if dict(dyn).get(tuple(t), 0) > 0]) >= 2 and (past, n) in ((1, 2), (2, 3), (3, 2)):
+                            jobs.append((ctx.repo, D, order, dyn, const, past, n, entry, "reversed"))
+                            jobs.append((ctx.repo, D, order, dyn, const, past, n, entry, "sorted"))
     results = ctx.pairs(worker, jobs)
     by = {}
     for job, r in results:
